@@ -257,7 +257,7 @@ def _fn(site):
     return site.b.name.split("::")[-1]
 
 
-def _publish_rule(ctx, pred, what, final_only=False):
+def _publish_rule(ctx, pred, what, final_only=True):
     an = get(ctx)
     n = 0
     for site, loc, kind, states in an.publish_states():
@@ -279,7 +279,7 @@ def r1_1(ctx):
     mutation afterwards."""
     an = get(ctx)
     n = _publish_rule(ctx, lambda s: s.gate in ("is_check", "can_castle"), "gate")
-    ctx.floor("publishes", n, 9)
+    ctx.floor("publishes", n, 4)
     # the colour handed to the gate must be the mover's: rooted in parameters only
     ngates = 0
     for site in an.sites:
@@ -306,19 +306,19 @@ def r2_1(ctx):
     """At every publish the move descriptor has been written: last_move and pawn_promotion."""
     n = _publish_rule(ctx, lambda s: s.last_move, "last_move")
     _publish_rule(ctx, lambda s: s.promo, "pawn_promotion")
-    ctx.floor("publishes", n, 9)
+    ctx.floor("publishes", n, 4)
 
 
 def r2_2(ctx):
     """At every publish the side to move has been swapped exactly once."""
     n = _publish_rule(ctx, lambda s: s.swaps == 1, "swapped-once")
-    ctx.floor("publishes", n, 9)
+    ctx.floor("publishes", n, 4)
 
 
 def r2_3(ctx):
     """At every publish the en-passant target has been resolved (cleared or set for this move)."""
     n = _publish_rule(ctx, lambda s: s.ep_resolved, "ep_resolved")
-    ctx.floor("publishes", n, 9)
+    ctx.floor("publishes", n, 4)
 
 
 def r5_2_epclear(ctx):
@@ -329,3 +329,83 @@ def r5_2_epclear(ctx):
         ctx.ob("%s:W_ep(%s):EpClear" % (_fn(site), site.b.lname(site.L)), ok, site.b.where(loc),
                "`%s`: no unset_pawn_double_move on this successor since its creation" % site.b.text_at(loc)[:90])
     ctx.floor("ep-set sites in the generator", len(an.ep_sets), 1)
+
+
+# ---- R2.4 corner <-> right: every successor whose move touches a rook home corner has lost that right
+from wa.cond import refuted_edges
+from . import chess
+
+
+def _reach_publish(site, removed_nodes, removed_edges, start_edges=None):
+    """Publishes (push / hand-over) reachable from the clone site (or from given edge targets)
+    in the CFG without the removed nodes/edges."""
+    b = site.b
+    starts = [site.bb] if start_edges is None else start_edges
+    seen = set()
+    for st in starts:
+        if st in removed_nodes:
+            continue
+        seen |= b.reach_from(st, removed_nodes, removed_edges)
+    hits = []
+    for loc, kind, callee in site.publishes:
+        if loc[0] in seen and loc[0] != site.bb:
+            hits.append((loc, kind))
+    return hits
+
+
+def r2_4(ctx):
+    """For each rook home corner C with right V: no path from a successor's creation to its
+    publication is consistent with `to == C` (resp. `from == C`, piece not a king) unless
+    take_away_castling_rights(V) was applied to it; a king move removes both rights of its colour."""
+    an = get(ctx)
+    f = ctx.facts
+    kinds = f.enum_variant_by_discr("board::PieceKind")
+    colours = f.enum_variant_by_discr("board::PieceColor")
+    n = 0
+    for site in an.sites:
+        b, ex, L = site.b, site.ex, site.L
+        # the move this successor makes: arguments of move_piece(&mut L, from, to)
+        mp = [(loc, ev) for loc, evs in site.events.items() for ev in evs if ev[0] == "call" and ev[1] == MOVE_PIECE and ev[2] == 0]
+        takes = {}
+        for loc, evs in site.events.items():
+            for ev in evs:
+                if ev[0] == "call" and ev[1] == TAKE_AWAY and ev[2] == 0:
+                    v = strip_refs(ex.call_args(loc[0])[1])
+                    if v[0] == "agg":
+                        takes.setdefault(v[2], set()).add(loc[0])
+        if not mp or not takes:
+            continue   # castling / promotion successors: rights handled by R2.6 / inherited
+        if len(mp) != 1:
+            continue   # castling successors move king and rook: their rights are R2.6's obligations
+        args = ex.call_args(mp[0][0][0])
+        frm, to = strip_refs(args[1]), strip_refs(args[2])
+        # piece kind / colour expressions: fields of the Piece parameter
+        pp = [i for i in range(1, b.arg_count + 1) if b.local_ty(i) == "board::Piece"]
+        if len(pp) != 1:
+            raise ShapeNotRecognised("%s: Piece parameter" % site.name)
+        kind_e = ("field", ("arg", pp[0]), "kind")
+        col_e = ("field", ("arg", pp[0]), "color")
+        variants = {kind_e: kinds, col_e: colours}
+        for corner, right in sorted(chess.CORNER_RIGHT.items()):
+            r, c = chess.sq(corner)
+            for role, pt in (("to", to), ("from", frm)):
+                hyp = {("field", pt, "0"): ("eq", r), ("field", pt, "1"): ("eq", c)}
+                if role == "from":
+                    hyp[kind_e] = ("ne", ("King", "Pawn"))   # kings: own instance below; pawns never stand on a corner
+                ref = refuted_edges(b, ex, hyp, variants)
+                hits = _reach_publish(site, takes.get(right, set()), ref)
+                n += 1
+                ctx.ob("%s:%s==%s->%s" % (site.name, role, corner, right), not hits, b.where(hits[0][0]) if hits else b.where(site.loc),
+                       "a successor whose move goes %s %s can be published%s without take_away_castling_rights(%s): the right outlives its rook" % (
+                           role, corner, " at " + b.where(hits[0][0]) if hits else "", right) if hits else
+                       "every path consistent with %s == %s (%d,%d) passes take_away_castling_rights(%s)" % (role, corner, r, c, right))
+        for colour in ("White", "Black"):
+            for right in [k for k, v in chess.RIGHT_COLOUR.items() if v == colour]:
+                hyp = {kind_e: ("eq", "King"), col_e: ("eq", colour)}
+                ref = refuted_edges(b, ex, hyp, variants)
+                hits = _reach_publish(site, takes.get(right, set()), ref)
+                n += 1
+                ctx.ob("%s:king(%s)->%s" % (site.name, colour, right), not hits, b.where(hits[0][0]) if hits else b.where(site.loc),
+                       "a %s king move can be published without removing %s" % (colour, right) if hits else
+                       "every path consistent with a %s king move removes %s" % (colour, right))
+    ctx.floor("corner/king right obligations", n, 12)
